@@ -24,36 +24,36 @@ verus! {
 // region's column span on that line (columns converted to 0-based; the span is unbounded to the
 // right on every line but the region's last).
 
-spec fn ranges_wf(r: Seq<Range<usize>>) -> bool {
+pub open spec fn ranges_wf(r: Seq<Range<usize>>) -> bool {
     &&& forall|i: int| 0 <= i < r.len() ==> (#[trigger] r[i]).start < r[i].end
     &&& forall|i: int, j: int| 0 <= i < j < r.len() ==> (#[trigger] r[i]).end < (#[trigger] r[j]).start
 }
 
-spec fn lc_wf(lc: LineChange) -> bool {
+pub open spec fn lc_wf(lc: LineChange) -> bool {
     lc.ranges matches Some(v) ==> ranges_wf(v@)
 }
 
-spec fn col_lo(start: Position, line: usize) -> int {
+pub open spec fn col_lo(start: Position, line: usize) -> int {
     if line == start.line { start.character - 1 } else { 0 }
 }
 
-spec fn col_hi(end: Position, line: usize) -> int {
+pub open spec fn col_hi(end: Position, line: usize) -> int {
     if line < end.line { usize::MAX as int } else { end.character - 1 }
 }
 
 /// region = [start, end) (content of a block)
-spec fn hits_half_open(start: Position, end: Position, lc: LineChange) -> bool {
+pub open spec fn hits_half_open(start: Position, end: Position, lc: LineChange) -> bool {
     start.line <= lc.line <= end.line && (lc.ranges matches Some(v) ==>
         exists|k: int| 0 <= k < v@.len() && (#[trigger] v@[k]).end > col_lo(start, lc.line) && v@[k].start < col_hi(end, lc.line))
 }
 
 /// region = [start, end] (start tag, from `<` to `>`)
-spec fn hits_closed(start: Position, end: Position, lc: LineChange) -> bool {
+pub open spec fn hits_closed(start: Position, end: Position, lc: LineChange) -> bool {
     start.line <= lc.line <= end.line && (lc.ranges matches Some(v) ==>
         exists|k: int| 0 <= k < v@.len() && (#[trigger] v@[k]).end > col_lo(start, lc.line) && v@[k].start <= col_hi(end, lc.line))
 }
 
-spec fn block_wf(b: Block) -> bool {
+pub open spec fn block_wf(b: Block) -> bool {
     &&& b.content_position_range.start.character >= 1
     &&& b.content_position_range.end.character >= 1
     &&& b.start_tag_position_range@.start.character >= 1
